@@ -309,3 +309,69 @@ func VH_C01_bigrange(n, vKiB int) {
 	verif.Assert(w.Count == 0 && len(w.Kvs) == 0, "delete range over more than one read chunk: everything deleted")
 	verif.Cover("end")
 }
+
+// vhSimpleCmd: an arbitrary put / single-key delete / range delete (kind 0..2)
+// with its expected response on state r, which it updates.
+func vhSimpleCmd(kind int, r *vhRef, maxK int, what string) (*regattapb.Command, func(res *regattapb.CommandResult)) {
+	cmd := &regattapb.Command{Table: []byte("t")}
+	pre := r.clone()
+	switch kind {
+	case 0:
+		k, v, prev := vhArbKey(1, maxK), vhArbKey(0, 1), verif.Bool()
+		cmd.Type, cmd.Kv, cmd.PrevKvs = regattapb.Command_PUT, &regattapb.KeyValue{Key: k, Value: v}, prev
+		r.put(k, v)
+		return cmd, func(res *regattapb.CommandResult) {
+			verif.Assert(len(res.Responses) == 1, what+"put: one response")
+			if len(res.Responses) == 1 {
+				old, had := pre.get(k)
+				vhPutResp(res.Responses[0], old, had, k, prev, what+"put")
+			}
+		}
+	case 1:
+		k, prev, count := vhArbKey(1, maxK), verif.Bool(), verif.Bool()
+		cmd.Type, cmd.Kv, cmd.PrevKvs, cmd.Count = regattapb.Command_DELETE, &regattapb.KeyValue{Key: k}, prev, count
+		r.del(k)
+		return cmd, func(res *regattapb.CommandResult) {
+			verif.Assert(len(res.Responses) == 1, what+"delete: one response")
+			if len(res.Responses) == 1 {
+				wk, wv := vhSingleAsRange(pre, k)
+				vhDelResp(res.Responses[0], wk, wv, prev, count, what+"delete")
+			}
+		}
+	default:
+		a, b, prev, count := vhArbKey(1, maxK), vhArbKey(0, maxK), verif.Bool(), verif.Bool()
+		cmd.Type, cmd.Kv, cmd.RangeEnd, cmd.PrevKvs, cmd.Count = regattapb.Command_DELETE, &regattapb.KeyValue{Key: a}, b, prev, count
+		r.delRange(a, b)
+		return cmd, func(res *regattapb.CommandResult) {
+			verif.Assert(len(res.Responses) == 1, what+"delete range: one response")
+			if len(res.Responses) == 1 {
+				wk, wv := pre.rng(a, b)
+				vhDelResp(res.Responses[0], wk, wv, prev, count, what+"delete range")
+			}
+		}
+	}
+}
+
+// VH_C01_pair: two arbitrary plain commands (kinds k1, k2: put / delete /
+// delete range) delivered in ONE apply call from an arbitrary state: each
+// response is the reference map's answer at that point of the sequence and
+// the final content is the reference's. (A command must not inherit anything
+// from the one decoded before it.)
+func VH_C01_pair(k1, k2, maxN int) {
+	db := vhOpenDB()
+	ref := vhArbitraryStateSys(db, maxN, 1, -1, true)
+	f := vhFSM(db, nil)
+	idx := vhIndex(false)
+	c1, chk1 := vhSimpleCmd(k1, ref, 1, "first/")
+	c2, chk2 := vhSimpleCmd(k2, ref, 1, "second/")
+	out, err := f.Update([]sm.Entry{vhEntry(idx, c1), vhEntry(idx+1, c2)})
+	verif.Assert(err == nil && len(out) == 2, "update succeeds")
+	if err != nil || len(out) != 2 {
+		return
+	}
+	chk1(vhResult(out[0]))
+	chk2(vhResult(out[1]))
+	vhWholeTable(f, ref, "after the apply call")
+	verif.Assert(vhReadIndex(f, false) == idx+1, "applied index is the last entry's")
+	verif.Cover("end")
+}
